@@ -11,13 +11,13 @@ RULE = ("pairs of typed patterned tensors over a common type list (1-3 dims, num
         "(b) the same with one perturbation (an overlap element, a one-sided-support element, or a default) of size "
         "{1e-9,0.01,0.3,1,inf,nan}; (c) independent random pairs; (d) shapes differing; plus representation variants (clone, "
         "densification, same object, double transpose) and MultiTensor.allclose with absent blocks on either side; x tolerances "
-        "(rtol,atol) in {0,1e-8,0.05,0.5}^2 x equal_nan; oracle = torch.equal / torch.allclose on the dense twins (independent "
+        "(rtol,atol) in {0,1e-8,0.05,0.5,2}^2 x equal_nan; oracle = torch.equal / torch.allclose on the dense twins (independent "
         "interpreter), both argument orders. non-trivial = patterns differ structurally and supports overlap partially; "
         "distinct by case hash")
 ASSUMPTIONS = ["both tensors are patterns of the same index types (documented precondition)",
                "MultiTensor blocks carry the semiring zero as default (asserted by MultiTensor.allclose)"]
 ESSENTIAL_LABELS = ['covers-all', 'partial-overlap', 'disjoint', 'defaults-visible-both', 'expect-equal', 'expect-unequal', 'mode:multi', 'perturb:default']
-TOLS = (0.0, 1e-8, 0.05, 0.5)
+TOLS = (0.0, 1e-8, 0.05, 0.5, 2.0)      # rtol >= 1 makes the (asymmetric) scaling by |other| decisive next to a zero default
 DELTAS = (1e-9, 0.01, 0.3, 1.0, math.inf, math.nan)
 
 
